@@ -558,7 +558,7 @@ def run(tier, seed, model_ok=True):
     if tier != "quick":
         # more than 65535 arrays of one type constructed before the array under test (ygm_ptr slots only grow): ~80 s, thorough tier only.
         # array 0 takes slot 0, 65535 scratch arrays follow, array 1 gets slot 65536; both stay alive and are updated alternately
-        cases.append({"ranks": 2, "len": 5, "dv": 1, "script": "F;K 65535;N 7 9;T 1;s 0 3 8;p 1 6 4;+ 0 0;F;T 0;F;p 1 4 2;F;T 1;F", "nodes": 1, "ppn": 2,
+        cases.append({"ranks": 2, "len": 5, "dv": 1, "script": "F;K 65535 c;N 7 9;T 1;s 0 3 8;p 1 6 4;+ 0 0;F;T 0;F;p 1 4 2;F;T 1;F", "nodes": 1, "ppn": 2,
                       "routing": "NONE", "buffer_kb": None, "sim_seed": 7, "policy": "uniform", "kind": "many-arrays", "updates": 4, "resizes": 0, "emits": 0,
                       "sim_env": {"SIMMPI_ICOLL_IDLE": 10 ** 9}, "max_steps": 10 ** 9})
     allunits = [u for c in cases for u in units(c)]
